@@ -260,3 +260,50 @@ pub fn mt_runtime(workers: usize) -> tokio::runtime::Runtime {
         .build()
         .expect("tokio runtime")
 }
+
+// ------------------------------------------------------------ end-of-case cleanup
+
+thread_local! {
+    static CASE_GUARDS: std::cell::RefCell<Vec<Box<dyn std::any::Any>>> = const { std::cell::RefCell::new(Vec::new()) };
+}
+
+/// Keep `x` alive until the case running on this thread ends (the engine calls
+/// `end_of_case` after every check), then drop it.
+pub fn defer_drop<T: 'static>(x: T) {
+    CASE_GUARDS.with(|g| g.borrow_mut().push(Box::new(x)));
+}
+
+pub fn end_of_case() {
+    let v: Vec<Box<dyn std::any::Any>> = CASE_GUARDS.with(|g| std::mem::take(&mut *g.borrow_mut()));
+    drop(v);
+}
+
+/// Ends a blocking `Server::serve` loop: shutdown(2) on the listening socket makes
+/// the blocked accept return an error, `serve` returns and the listener is closed.
+pub struct ListenerStop(std::net::TcpListener);
+
+impl Drop for ListenerStop {
+    fn drop(&mut self) {
+        use std::os::fd::AsRawFd;
+        unsafe {
+            libc::shutdown(self.0.as_raw_fd(), libc::SHUT_RDWR);
+        }
+    }
+}
+
+/// Stop the accept loop that is about to be started on `l` when the current case ends
+/// (per-case servers would otherwise leak a thread and a listening socket each).
+pub fn stop_at_end_of_case(l: &std::net::TcpListener) {
+    if let Ok(c) = l.try_clone() {
+        defer_drop(ListenerStop(c));
+    }
+}
+
+/// Aborts a tokio task when dropped.
+pub struct AbortOnDrop<T>(pub tokio::task::JoinHandle<T>);
+
+impl<T> Drop for AbortOnDrop<T> {
+    fn drop(&mut self) {
+        self.0.abort();
+    }
+}
